@@ -5,26 +5,26 @@
 namespace sim {
 
 static const Part kParts[] = {
-	{"C01", "vol-roundtrip", 4000, 400000},
-	{"C02", "vol-roundtrip", 3000, 300000},
-	{"C02", "vol-foreign", 3000, 300000},
-	{"C03", "clm-roundtrip", 3000, 300000},
-	{"C04", "lzh-drain", 6000, 600000},
-	{"C05", "archive-damage", 32, 3200},
-	{"C06", "map-stream", 4000, 400000},
-	{"C07", "map-damage", 32, 3200},
-	{"C08", "bmp-stream", 6000, 600000},
-	{"C09", "tileset-stream", 4000, 400000},
-	{"C10", "prt-stream", 4000, 400000},
-	{"C11", "image-damage", 32, 3200},
+	{"C01", "vol-roundtrip", 12000, 400000},
+	{"C02", "vol-roundtrip", 8000, 300000},
+	{"C02", "vol-foreign", 8000, 300000},
+	{"C03", "clm-roundtrip", 10000, 300000},
+	{"C04", "lzh-drain", 6000, 300000},
+	{"C05", "archive-damage", 96, 3200},
+	{"C06", "map-stream", 10000, 400000},
+	{"C07", "map-damage", 64, 3200},
+	{"C08", "bmp-stream", 20000, 600000},
+	{"C09", "tileset-stream", 12000, 400000},
+	{"C10", "prt-stream", 12000, 400000},
+	{"C11", "image-damage", 96, 3200},
 	{"C12", "stream-actors", 60000, 3000000},
 	{"C13", "stream-actors", 40000, 2000000},
-	{"C13", "archive-streams", 3000, 300000},
+	{"C13", "archive-streams", 8000, 300000},
 	{"C14", "writer-actors", 40000, 2000000},
 	{"C14", "copy-matrix", 4000, 200000},
 	{"C14", "filewriter-matrix", 300, 20000},
-	{"C17", "resource-layout", 3000, 200000},
-	{"C18", "twin-env", 3000, 300000},
+	{"C17", "resource-layout", 12000, 200000},
+	{"C18", "twin-env", 10000, 300000},
 	{"C20", "limits", 44, 104},
 };
 
